@@ -1134,6 +1134,9 @@ impl BitVectorMut {
             return;
         }
 
+        // SAFETY: the range is within bounds due to the checks above
+        let old_bits = unsafe { self.get_bits_unchecked(index, len) };
+        self.n_ones -= old_bits.count_ones() as usize;
         self.n_ones += bits.count_ones() as usize;
 
         // let mask = if len == 64 {
